@@ -717,47 +717,61 @@ impl C16 {
                                 }
                             }
                         }
-                        // a live iterator that changes threads: created on a helper thread (with its own simulator source),
-                        // consumed here after this thread has run a different split of its own. KFoldIter is Send; whatever it
-                        // needs must travel with it.
+                        // a live iterator that changes threads: created on one fresh helper thread (after 0..2 splits of its
+                        // own there), consumed on another fresh helper thread that has run 1..2 different splits of its own.
+                        // KFoldIter is Send; whatever it needs must travel with it. (Both threads are fresh on purpose:
+                        // per-thread counters and scratch state of the two sides then sit in the same low range.)
                         if rep.violation.is_none() && case.tape.seed % 8 == 0 {
                             let sd = case.tape.seed;
-                            let spec = TapeSpec::prng(sd ^ 0x6d69_6772_6174_6564);
-                            let made = guarded(|| {
+                            let spec_a = TapeSpec::prng(sd ^ 0x6d69_6772_6174_6564);
+                            let spec_b = TapeSpec::prng(sd ^ 0x636f_6e73_756d_6572);
+                            let (wa, wb) = ((sd / 8 % 3) as usize, 1 + (sd / 24 % 2) as usize);
+                            let n2 = 2 + (sd / 11 % 30) as usize;
+                            let k2 = (2 + (sd / 13 % 5) as usize).min(n2);
+                            let (x2, _) = make_xy::<T>(n2, 1);
+                            let out = guarded(|| {
                                 std::thread::scope(|sc| {
-                                    sc.spawn(|| {
-                                        let g = TapeGuard::install(&spec);
-                                        let warm: Vec<(Vec<usize>, Vec<usize>)> = make_kfold(2, true, 0).split(&x).collect();
-                                        let it = cv.split(&x);
+                                    let (x2a, xa, cva, spec_ar) = (&x2, &x, &cv, &spec_a);
+                                    let it = sc
+                                        .spawn(move || {
+                                            let g = TapeGuard::install(spec_ar);
+                                            for _ in 0..wa {
+                                                let _: Vec<(Vec<usize>, Vec<usize>)> = make_kfold(k2, true, 0).split(x2a).collect();
+                                            }
+                                            let it = cva.split(xa);
+                                            drop(g);
+                                            it
+                                        })
+                                        .join()
+                                        .map_err(|_| "creating thread panicked".to_string())?;
+                                    let (x2r, spec_br) = (&x2, &spec_b);
+                                    sc.spawn(move || {
+                                        let g = TapeGuard::install(spec_br);
+                                        for _ in 0..wb {
+                                            let _: Vec<(Vec<usize>, Vec<usize>)> = make_kfold(k2, true, 1).split(x2r).collect();
+                                        }
+                                        let f: Vec<(Vec<usize>, Vec<usize>)> = it.collect();
                                         drop(g);
-                                        (warm.len(), it)
+                                        f
                                     })
                                     .join()
+                                    .map_err(|_| "consuming thread panicked".to_string())
                                 })
                             });
                             rep.count("fault.split-iterator-migrated-between-threads", 1);
-                            match made {
-                                Ok(Ok((_, it))) => {
-                                    let n2 = 2 + (sd / 11 % 30) as usize;
-                                    let k2 = (2 + (sd / 13 % 5) as usize).min(n2);
-                                    let (x2, _) = make_xy::<T>(n2, 1);
-                                    let own: Result<Vec<(Vec<usize>, Vec<usize>)>, String> = guarded(|| make_kfold(k2, true, 1).split(&x2).collect());
-                                    let _ = own;
-                                    match guarded(|| it.collect::<Vec<(Vec<usize>, Vec<usize>)>>()) {
-                                        Err(msg) => rep.fail("panic", "kfold-iterator", format!("KFold(n={}, k={}, shuffle={}): an iterator created on another thread panicked when consumed: {}", n, k, case.shuffle, msg)),
-                                        Ok(f) => {
-                                            let tr: Vec<Vec<usize>> = f.iter().map(|p| p.0.clone()).collect();
-                                            let te: Vec<Vec<usize>> = f.iter().map(|p| p.1.clone()).collect();
-                                            for (t1, t2) in f.iter() {
-                                                d.usizes(t1).usizes(t2);
-                                            }
-                                            if let Err((c, m)) = check_folds(n, k, case.shuffle, &tr, &te) {
-                                                rep.fail(c, "kfold-migrated", format!("KFold(n={}, k={}, shuffle={}): iterator created on one thread and consumed on another (which had run a split of n={}, k={} of its own): {}", n, k, case.shuffle, n2, k2, m));
-                                            }
-                                        }
+                            match out {
+                                Ok(Ok(f)) => {
+                                    let tr: Vec<Vec<usize>> = f.iter().map(|p| p.0.clone()).collect();
+                                    let te: Vec<Vec<usize>> = f.iter().map(|p| p.1.clone()).collect();
+                                    for (t1, t2) in f.iter() {
+                                        d.usizes(t1).usizes(t2);
+                                    }
+                                    if let Err((c, m)) = check_folds(n, k, case.shuffle, &tr, &te) {
+                                        rep.fail(c, "kfold-migrated", format!("KFold(n={}, k={}, shuffle={}): iterator created on one thread (after {} other splits there) and consumed on another (after {} splits of n={}, k={} there): {}", n, k, case.shuffle, wa, wb, n2, k2, m));
                                     }
                                 }
-                                Ok(Err(_)) | Err(_) => rep.fail("panic", "kfold-split", format!("KFold(n={}, k={}).split() panicked on a helper thread", n, k)),
+                                Ok(Err(e)) => rep.fail("panic", "kfold-iterator", format!("KFold(n={}, k={}, shuffle={}): iterator created on one thread and consumed on another: {}", n, k, case.shuffle, e)),
+                                Err(msg) => rep.fail("panic", "kfold-iterator", format!("KFold(n={}, k={}, shuffle={}): iterator created on one thread and consumed on another panicked: {}", n, k, case.shuffle, msg)),
                             }
                         }
                         // two live iterators advanced in an interleaved order (nested cross-validation: an inner split runs
